@@ -48,8 +48,8 @@ Qed.
 Theorem tangent_choice_spec :
   forall nrm (El E Er : Qc) (xl x xr t : nat -> Qc),
   tau_sel Qc (Oq nrm) El E Er xl x xr = Some t ->
-  let dM := Qcmaxq (Qcabs (Er - E)) (Qcabs (El - E)) in
-  let dm := Qcminq (Qcabs (Er - E)) (Qcabs (El - E)) in
+  let dM := Qcmaxq (Qcabs (E - Er)) (Qcabs (E - El)) in
+  let dm := Qcminq (Qcabs (E - Er)) (Qcabs (E - El)) in
   let tp := fun i => (xr i - x i)%Qc in
   let tm := fun i => (x i - xl i)%Qc in
   (dM = Q2Qc 0 -> forall i, t i = tp i + tm i)%Qc /\
@@ -67,7 +67,7 @@ Proof. intros nrm El E Er xl x xr t Ht. exact (tangent_spec_lemma nrm El E Er xl
 Theorem tangent_tie_is_bisector :
   forall nrm (El E Er : Qc) (xl x xr t : nat -> Qc),
   tau_sel Qc (Oq nrm) El E Er xl x xr = Some t -> El = Er ->
-  let dM := Qcmaxq (Qcabs (Er - E)) (Qcabs (El - E)) in
+  let dM := Qcmaxq (Qcabs (E - Er)) (Qcabs (E - El)) in
   forall i, (t i = (if Qceqb dM (Q2Qc 0) then Q2Qc 1 else dM) * ((xr i - x i) + (x i - xl i)))%Qc.
 Proof.
   intros nrm El E Er xl x xr t Ht Htie dM i.
